@@ -72,13 +72,32 @@ pub fn valid_schema() -> BoxedStrategy<MSchema> {
             let secs: Vec<MComp> = sorder.into_iter().zip(smask).filter(|(_, keep)| *keep).map(|(v, _)| MComp::Var(v)).collect();
             let (cfill, cslots): (Vec<_>, Vec<_>) = cf.into_iter().unzip();
             let (efill, eslots): (Vec<_>, Vec<_>) = ef.into_iter().unzip();
-            let mut s = MSchema { core: interleave(prims, cfill, cslots), extra_core: interleave(secs, efill, eslots), build };
+            let mut s = MSchema { core: interleave(prims, cfill, cslots), extra_core: interleave(secs, efill, eslots), build, precedence: vec![] };
             if s.core.is_empty() && s.extra_core.is_empty() && s.build.is_empty() {
                 s.core.push(MComp::Var(MVar::Major));
             }
             s
         })
         .boxed()
+}
+
+/// custom `precedence_order` lists: full permutations, partial lists (a section listed without
+/// the fields of its variables and vice versa), lists with repeats; empty = default
+pub fn precedence() -> BoxedStrategy<Vec<u8>> {
+    prop_oneof![
+        2 => Just((0u8..11).collect::<Vec<u8>>()).prop_shuffle(),
+        3 => (Just((0u8..11).collect::<Vec<u8>>()).prop_shuffle(), 1usize..11).prop_map(|(v, n)| v.into_iter().take(n).collect()),
+        2 => proptest::collection::vec(any::<bool>(), 11).prop_map(|m| (0u8..11).zip(m).filter(|x| x.1).map(|x| x.0).collect::<Vec<u8>>()).prop_filter("non-empty", |v: &Vec<u8>| !v.is_empty()),
+        1 => proptest::collection::vec(0u8..11, 1..14),
+    ]
+    .boxed()
+}
+/// valid schema, with a custom precedence order in about a third of the cases
+pub fn valid_schema_p() -> BoxedStrategy<MSchema> {
+    (valid_schema(), proptest::option::weighted(0.35, precedence())).prop_map(|(mut s, p)| { if let Some(p) = p { s.precedence = p; } s }).boxed()
+}
+pub fn mzerv_p(wide: bool) -> BoxedStrategy<MZerv> {
+    (valid_schema_p(), vars(wide)).prop_map(|(schema, vars)| MZerv { schema, vars }).boxed()
 }
 
 pub fn hash_text() -> BoxedStrategy<String> {
